@@ -97,33 +97,43 @@ From EV Require Import Model.Extract Model.E2E Model.RefEngine Model.E2EClosed P
 (* THE CLOSED THEOREM.  No premise about candidates, tokens, regex matches or reference matches is left: every one
    of them is proved for the engine on the regenerated tables (Proofs/ExtractProofs, ClosedProofs, SearchDischarge,
    SearchDischarge2, ShortPage, SearchGuarded: soundness of the engine w.r.t. declarative semantics with and without
-   captures, and verified static analyses run by the kernel).  The three premises are conditions on the TEXT:
+   captures, and verified static analyses run by the kernel).  The two premises are conditions on the TEXT:
    - s <> "eyecite" (the easter egg: known finding);
    - ws_clean: the text contains no whitespace character other than U+0020 -- what eyecite's recommended
      all_whitespace cleaning produces.  Needed because `$` also matches before a final newline and because
      DEFENDANT_YEAR accepts an empty defendant after a leading whitespace: for unrestricted windows the oracle
      contracts search_ok / defyear_ok are FALSE of the engine (C02_contract_refuted_on_all_windows), so the earlier,
      unguarded closed statements were vacuous; the contracts are now guarded by ws_clean windows and hold outright;
-   - odd_short_rows_silent: the text has no short-form citation of the 11 reporters whose short-form pattern puts
-     text AFTER the page group inside the token ("19 CO at 12M", "... at 5 (6th Cir.)"): for those the premise "the
-     token ends with its page" of the offset proof is false (C02_short_page_refuted) although the implementation's
-     spans are right (D1 clamp) -- a limit of the proof, observed by the harness. *)
+   (A third premise, odd_short_rows_silent, is gone: for the 11 reporters whose short-form pattern puts text AFTER
+   the page group inside the token ("19 CO at 12M", "... at 5 (6th Cir.)") the assumption "the token ends with its
+   page" is false (C02_short_page_refuted) and the implementation computed a pin cite that is not in the text; the
+   repaired _extract_shortform_citation checks the suffix itself, the model follows it, and tok_ok no longer asks
+   for it: C02_closed_short_repaired.) *)
 From EV Require Import Proofs.SearchDischarge Proofs.ShortPage Proofs.SearchDischarge2 Proofs.Vacuity Proofs.SearchGuarded Proofs.ClosedFinal.
 
 Theorem C02_closed_offsets : forall this_year s ra l,
-  s <> s_eyecite -> ws_clean is_space_gen s -> odd_short_rows_silent s ->
+  s <> s_eyecite -> ws_clean is_space_gen s ->
   get_citations_closed this_year s ra = Ok l ->
   Forall (offsets_ok s) l.
 Proof. exact closed_offsets_final. Qed.
 Print Assumptions C02_closed_offsets.
 
 (* the premises are satisfiable and the conclusion is about a non-trivial run: "Foo v. Bar, 1 U.S. 1 (1999). Id. at 5."
-   meets all three and the closed model returns two citations on it *)
+   meets both and the closed model returns two citations on it *)
 Theorem C02_closed_nonvacuous :
-  s_example <> s_eyecite /\ ws_clean is_space_gen s_example /\ odd_short_rows_silent s_example /\
+  s_example <> s_eyecite /\ ws_clean is_space_gen s_example /\
   exists l, get_citations_closed 2026 s_example false = Ok l /\ length l = 2%nat.
 Proof. exact final_premises_hold. Qed.
 Print Assumptions C02_closed_nonvacuous.
+
+(* the repaired short form: on "Foo, 19 CO at 12M, 15 (holding x)" the closed model returns one short citation whose
+   pin cite is "15" (before the repair: "12, 15", which is not in the text) *)
+Theorem C02_closed_short_repaired :
+  s_example_short <> s_eyecite /\ ws_clean is_space_gen s_example_short /\
+  exists c, get_citations_closed 2026 s_example_short false = Ok [c] /\
+            p_cls c = CShort /\ p_pin c = Some [49;53]%N.
+Proof. exact final_example_short. Qed.
+Print Assumptions C02_closed_short_repaired.
 
 (* the unguarded oracle contract is false of the real engine: witness windows "Foo, \n" and " (1999)" *)
 Theorem C02_contract_refuted_on_all_windows :
